@@ -666,7 +666,11 @@ func scenarios(th bool) []scenario {
 		if !th && !(sc.Name == "W||W" || sc.Name == "W||R" || sc.Name == "R||R" || sc.Name == "M||M two values" || sc.Name == "wronly||R" || sc.Name == "W+dup||W" || sc.Name == "create||R" || sc.Name == "M||R") {
 			continue
 		}
-		ps = append(ps, scenario{sc.Name + pmodeTag, sc.Threads, pb, false})
+		b := pb
+		if th && (strings.HasPrefix(sc.Name, "flags") || strings.HasPrefix(sc.Name, "R(flags)")) {
+			b = 2 // 70 scenarios with real processes: all schedules of each do not fit the cap
+		}
+		ps = append(ps, scenario{sc.Name + pmodeTag, sc.Threads, b, false})
 	}
 	return append(scs, ps...)
 }
